@@ -1,0 +1,18 @@
+//go:build verif
+
+// Contracts checked by /verif (gocv). Comment-only; compiled only with -tags verif.
+
+package query
+
+//@ func (*Options).NumSteps
+//@   requires o != nil
+//@   ensures[C01,C07,C18] instant: o.Step.Milliseconds() == 0 ==> result == 1
+//@   ensures[C01,C07,C18] range: o.Step.Milliseconds() != 0 ==>
+//@       result == imin(o.StepsBatch, (o.End.UnixMilli()-o.Start.UnixMilli())/o.Step.Milliseconds() + 1)
+//@   assigns nothing
+//@
+//@ func (*Options).WithEndTime
+//@   requires o != nil
+//@   ensures[C06,C07] fresh(result) && result.End == end && result.Start == o.Start && result.Step == o.Step
+//@   ensures[C06,C07] result.LookbackDelta == o.LookbackDelta && result.StepsBatch == o.StepsBatch
+//@   assigns nothing
